@@ -10,6 +10,7 @@ import (
 	"fmt"
 	"net"
 	"sort"
+	"strings"
 	"testing"
 
 	"github.com/go-kit/log"
@@ -58,7 +59,20 @@ func (v vfView) nodeMap() map[string]*v1.Node {
 
 func (v vfView) svc(name string) *v1.Service {
 	s := vw.SvcSpec{NS: "ns0", Name: name, Ports: []vw.PortSpec{{Proto: "TCP", Port: 80}}, Local: v.Local, Families: []int{vw.FamilyV4}}
-	return s.Object(0)
+	obj := s.Object(0)
+	// the recorded addresses; every service but svc0 records them in another spelling of the same address (the API
+	// accepts any): upper-case IPv6, IPv4-mapped IPv4
+	for _, ip := range v.IPs {
+		if name != "svc0" {
+			if strings.Contains(ip, ":") {
+				ip = strings.ToUpper(ip)
+			} else {
+				ip = "::ffff:" + ip
+			}
+		}
+		obj.Status.LoadBalancer.Ingress = append(obj.Status.LoadBalancer.Ingress, v1.LoadBalancerIngress{IP: ip})
+	}
+	return obj
 }
 
 func (v vfView) ips() []net.IP {
